@@ -176,6 +176,55 @@ def make_cmd(c: dict):
     raise HarnessError(f"command spec {c}")
 
 
+# ----------------------------------------------------------------------------------------------
+# the BD-file route (what `nxpimage sb21 export` does): plan spec -> (BD statement, tuple the ROM model must decode).
+# Expectations follow the elftosb user's guide and the elftosb-made reference files (golden/sb2, decoded by the ROM
+# model): a binary blob is loaded byte for byte, `a..b` is a range, `section (N)` carries identifier N.
+
+
+def _bd_mem(m: int) -> str:
+    return f"@{m:#x} " if m else ""
+
+
+def make_bd_stmt(c: dict, td: str, idx: int, sources: dict):
+    t = c["t"]
+    if t == "load":
+        data = gen_bytes(c["s"], c["l"])
+        if c.get("form") == "blob" and c["l"] == 4:
+            return f"load {_bd_mem(c['m'])}{{{{ {' '.join('%02x' % b for b in data)} }}}} > {c['a']:#x};", ("load", c["a"], 4, data, c["m"] & 0xFFF)
+        name = f"src{idx}"
+        with open(os.path.join(td, name + ".bin"), "wb") as f:
+            f.write(data)
+        sources[name] = name + ".bin"
+        return f"load {_bd_mem(c['m'])}{name} > {c['a']:#x};", ("load", c["a"], c["l"], data, c["m"] & 0xFFF)
+    if t == "fill":
+        if c["l"] == 4 and not c.get("range"):
+            return f"load {c['p']:#010x} > {c['a']:#x};", ("fill", c["a"], 4, c["p"])
+        return f"load {c['p']:#010x} > {c['a']:#x}..{c['a'] + c['l']:#x};", ("fill", c["a"], c["l"], c["p"])
+    if t == "jump":
+        arg = f" ({c['arg']:#x})" if c["arg"] or c.get("explicit_arg") else ""
+        if c.get("sp") is not None:
+            return f"jump_sp {c['sp']:#x} {c['a']:#x}{arg};", ("jump", c["a"], c["arg"], c["sp"])
+        return f"jump {c['a']:#x}{arg};", ("jump", c["a"], c["arg"], None)
+    if t == "erase":
+        if c["f"]:
+            word = "unsecure all" if c["f"] == 2 else "all"
+            return f"erase {_bd_mem(c['m'])}{word};", ("erase", 0, 0, c["f"], c["m"] & 0xFFF)
+        return f"erase {_bd_mem(c['m'])}{c['a']:#x}..{c['a'] + c['l']:#x};", ("erase", c["a"], c["l"], 0, c["m"] & 0xFFF)
+    if t == "mem_enable":
+        return f"enable @{c['m']:#x} {c['a']:#x};", ("mem_enable", c["a"], 4, c["m"] & 0xFFF)
+    if t == "prog":
+        if c.get("form") == "blob":
+            blob = struct.pack("<I", c["w1"]) + (struct.pack("<I", c["w2"]) if c["w2"] else b"")
+            return f"load {c.get('kw', 'fuse')} {{{{ {' '.join('%02x' % b for b in blob)} }}}} > {c['a']:#x};", ("prog", c["a"], c["w1"], c["w2"], 4, 1 if c["w2"] else 0)
+        return f"load {c.get('kw', 'fuse')} {c['w1']:#x} > {c['a']:#x};", ("prog", c["a"], c["w1"], 0, 4, 0)
+    if t == "version_check":
+        return f"version_check {'sec' if c['k'] == 0 else 'nsec'} {c['v']:#x};", ("version_check", c["k"], c["v"])
+    if t in ("keystore_to_nv", "keystore_from_nv"):
+        return f"{t} @{c['m']} {c['a']:#x};", (t, c["a"], c["m"])
+    raise HarnessError(f"no BD form for {c}")
+
+
 def spsdk_cmd_tuple(cmd) -> tuple:
     """What SPSDK's parser recovered, in the ROM model's vocabulary (through public attributes)."""
     K = S.cmds
@@ -211,6 +260,9 @@ def cmd_equal(got: tuple, want: tuple):
     given bytes as prefix is reported under its own site (so that other differences are not shadowed)."""
     if got == want:
         return None
+    if got and want and got[0] == want[0] == "load" and want[2] == 4 and got[1] == want[1] and got[4] == want[4] and want[3] != want[3][::-1]:
+        if bytes(got[3][:4]) == bytes(want[3][::-1]) and got[2] in (4, 16):
+            return ("load:bd-blob-bytes-reversed", "a 4-byte binary blob of a BD load statement is written in reversed byte order (elftosb loads a blob byte for byte)")
     if got and want and got[0] == want[0] == "load":
         if got[1] == want[1] and got[4] == want[4] and got[3][: want[2]] == want[3]:
             if got[2] == (want[2] + 15) // 16 * 16 and got[2] != want[2]:
@@ -249,8 +301,80 @@ class Run:
         self.probes[k] = self.probes.get(k, 0) + n
 
     # -- build
+    def build_from_bd(self):
+        """SB2.1 the way `nxpimage sb21 export` builds it: BD file -> parse_sb21_config -> BootImageV21.load_from_config."""
+        import tempfile
+
+        p = self.plan
+        self.kek = gen_bytes(p["kek_seed"], 32)
+        self.td = td = tempfile.mkdtemp(prefix="verif-c04-")
+        adv = p.get("adv") or {}
+        opts = [f"flags = {0x8 | (0x8000 if p.get('sha') else 0):#x};", f"buildNumber = {p['build']:#x};", f'productVersion = "{p["pv"]}";', f'componentVersion = "{p["cv"]}";', 'secureBinaryVersion = "2.1";']
+        self.expected_ts = None
+        if adv.get("dek") is not None:
+            opts.append(f'dek = "{gen_bytes(adv["dek"], 32).hex()}";')
+        if adv.get("mac") is not None:
+            opts.append(f'mac = "{gen_bytes(adv["mac"] + 1000, 32).hex()}";')
+        if adv.get("nonce") is not None:
+            n = bytearray(gen_bytes(adv["nonce"] + 2000, 16))
+            n[9] &= 0x7F
+            n[13] &= 0x7F
+            n[0] |= 0x10  # (the option is read back through an integer: keep the leading byte non-zero)
+            if adv.get("nonce_high"):
+                n[12:16] = (0xFFFFFFF0).to_bytes(4, "little")
+            opts.append(f'nonce = "{bytes(n).hex()}";')
+        if adv.get("timestamp") is not None:
+            opts.append(f"timestamp = {adv['timestamp']};")
+            self.expected_ts = (adv["timestamp"] - 946684800) * 1000000
+        if adv.get("zero_padding"):
+            opts.append("zeroPadding = True;")
+        if self.expected_ts is None:
+            self.expected_ts = (int(EPOCH + (CLOCK.now_us + CLOCK.wall_offset_us) / 1e6) - 946684800) * 1000000
+        sources: dict = {}
+        body = []
+        self.expected = []
+        k = 0
+        for s_ in p["sections"]:
+            stmts = []
+            exp = []
+            for c in s_["cmds"]:
+                st, tup = make_bd_stmt(c, td, k, sources)
+                k += 1
+                stmts.append("    " + st)
+                exp.append(tup)
+            body.append(f"section ({s_['uid']:#x}) {{\n" + "\n".join(stmts) + "\n}")
+            self.expected.append((s_["uid"], exp))
+        text = "options {\n" + "\n".join("    " + o for o in opts) + "\n}\nsources {\n" + "\n".join(f'    {n_} = "{f_}";' for n_, f_ in sorted(sources.items())) + "\n}\n" + "\n".join(body) + "\n"
+        bd = os.path.join(td, "image.bd")
+        with open(bd, "w") as f:
+            f.write(text)
+        with open(os.path.join(td, "kek.txt"), "w") as f:
+            f.write(self.kek.hex())
+        try:
+            cfg = S.BootImageV21.parse_sb21_config(bd)
+        except Exception as exc:  # pylint: disable=broad-except
+            raise HarnessError(f"the generated BD file does not compile (BD compilation is not this property's subject): {type(exc).__name__}: {exc}\n{text}") from exc
+        key = p["key"]
+        kdir = os.path.join(GOLDEN, "keys")
+        roots = [os.path.join(kdir, f"root_k{i}_signed_cert0_noca.der.cert") for i in range(key["nroots"])]
+        cfg["mainCertPrivateKeyFile"] = os.path.join(kdir, f"k{key['used']}_cert0_2048.pem")
+        img = S.BootImageV21.load_from_config(config=cfg, key_file_path=os.path.join(td, "kek.txt"), signing_certificate_file_paths=[roots[key["used"]]], root_key_certificate_paths=roots, rkth_out_path=os.path.join(td, "hash.bin"), search_paths=[td])
+        self.signed = True
+        table = bytearray(128)
+        for i, path in enumerate(roots):
+            nums = S.Certificate.load(path).cert.public_key().public_numbers()
+            table[32 * i : 32 * i + 32] = hashlib.sha256(nums.n.to_bytes((nums.n.bit_length() + 7) // 8, "big") + nums.e.to_bytes((nums.e.bit_length() + 7) // 8, "big")).digest()
+        self.rkth = hashlib.sha256(bytes(table)).digest()
+        with open(os.path.join(td, "hash.bin"), "rb") as f:
+            if f.read() != self.rkth:
+                self.violation("rkth-output", "hash.bin", "the root-key-table hash written for fuse programming differs from the hash of the table as supplied")
+        self.probe("built_from_bd_file")
+        return img
+
     def build(self):
         p = self.plan
+        if p.get("via_bd"):
+            return self.build_from_bd()
         self.kek = gen_bytes(p["kek_seed"], 32)
         adv = p.get("adv") or {}
         kw = {}
@@ -682,8 +806,15 @@ def region(pos: int, data: bytes, run: Run) -> str:
 
 
 def execute(plan: dict) -> dict:
+    import shutil
+
     worker_init()
-    return Run(plan).execute()
+    run = Run(plan)
+    try:
+        return run.execute()
+    finally:
+        if getattr(run, "td", None):
+            shutil.rmtree(run.td, ignore_errors=True)
 
 
 # ----------------------------------------------------------------------------------------------
@@ -716,6 +847,61 @@ def gen_cmd(rng: random.Random) -> dict:
     if t in ("keystore_to_nv", "keystore_from_nv"):
         return {"t": t, "a": a, "m": rng.choice([1, 8, 9])}
     return {"t": t}
+
+
+def to_bd_plan(plan: dict, rng: random.Random) -> None:
+    """Rewrites a plan into one that a BD command file can express (SB2.1, four-root key set, BD statement forms)."""
+    plan["via_bd"] = True
+    plan["version"] = "2.1"
+    plan["signed"] = True
+    nroots = rng.randint(1, 4)
+    plan["key"] = {"kind": "k4", "nroots": nroots, "used": rng.randrange(nroots)}
+    if plan.get("adv"):
+        plan["adv"].pop("tz_minutes", None)
+    for s_ in plan["sections"]:
+        s_["hmac_count"] = 1  # not expressible; the header field is judged against what the file carries
+        cmds = []
+        for c in s_["cmds"]:
+            t = c["t"]
+            if t in ("call", "reset", "nop"):
+                c = {"t": "jump", "a": c.get("a", 0x1000), "arg": c.get("arg", 0), "sp": None}
+            elif t == "load":
+                c["m"] = rng.choice([0, 0, 0, 8, 9, 0x120])
+                if rng.random() < 0.2:
+                    c["l"] = 4
+                    c["form"] = "blob"
+            elif t == "fill":
+                c["p"] = rng.choice([0x12345678, 0xFFFFFFFF, 0xC0000001, 0x80000000 | rng.randrange(1 << 31)])
+                c["l"] = rng.choice([4, 4, 8, 0x100, 0x1000, 4 * rng.randrange(1, 1 << 20)])
+                c["a"] = rng.choice([0, 0x1000, 0x2000_0000, 4 * rng.randrange(1 << 28)])
+                c["range"] = rng.random() < 0.5
+            elif t == "erase":
+                c["m"] = rng.choice([0, 0, 8, 9, 0x120])
+                c["f"] = rng.choice([0, 0, 1, 2])
+                if c["f"] == 2:
+                    c["m"] = 0
+                if not c["f"]:
+                    c["a"] = rng.choice([0, 0x1000, 0x0800_0000, rng.randrange(1 << 31)])
+                    c["l"] = rng.choice([0x1000, 1, rng.randrange(1, 1 << 30)])
+            elif t == "mem_enable":
+                c["m"] = rng.choice([8, 9, 0x120, 1])
+                c["l"] = 4
+            elif t == "prog":
+                c["m"] = 4
+                c["kw"] = rng.choice(["fuse", "ifr"])
+                c["form"] = rng.choice(["int", "blob", "blob"])
+                if c["form"] == "int":
+                    c["w2"] = 0
+                    c["w1"] = c["w1"] or 1
+                else:
+                    c["w1"] |= 0x01000000  # (the blob is read back through an integer: keep its first byte non-zero)
+                    c["w1"] |= 1
+            elif t == "jump":
+                c["explicit_arg"] = rng.random() < 0.3
+            elif t in ("keystore_to_nv", "keystore_from_nv"):
+                c["m"] = 9
+            cmds.append(c)
+        s_["cmds"] = cmds
 
 
 def gen_ver(rng: random.Random) -> str:
@@ -764,6 +950,8 @@ def gen_plan(family: str, i: int, rng: random.Random, tier: str, _depth: int = 0
         "version": version, "signed": signed, "key": key, "kek_seed": rng.randrange(1 << 20), "adv": adv, "pv": pv, "cv": pv if same_ver else gen_ver(rng),
         "build": rng.choice([0, 1, 0xFFFF, rng.randrange(1 << 32)]), "sha": rng.random() < 0.5, "sections": sections, "t0_us": rng.choice([0, rng.randrange(10**12)]), "ops": [],
     }
+    if rng.random() < 0.25:
+        to_bd_plan(plan, rng)
     if rng.random() < 0.35:
         plan["pre"] = [rng.choice(["str", "export", "export", "raw_size", "update"]) for _ in range(rng.randint(1, 3))]
     if family == "control":
